@@ -4,3 +4,5 @@ import GeoVerif.FP.F64
 import GeoVerif.Model.MathF
 import GeoVerif.Corr.Proto
 import GeoVerif.Corr.C16
+import GeoVerif.Model.GridCodes
+import GeoVerif.Corr.C18
